@@ -183,6 +183,21 @@ def plan_comments(rng, finfo, lines_of, diags_by_file, k, cover):
         used.add((outer["file"], None, outer["before"]))
         used.add((inner["file"], inner["line"], None))
         cover[(("nested", category(inner["target"][2])), "nested")] = cover.get((("nested", category(inner["target"][2])), "nested"), 0) + 1
+    # a selector broken after the dot (the reported expression starts on this line, the selected name stands on the next):
+    # always served when the world has one, with an effective code list
+    dots = [(lab, pl, d) for lab, pl, d in cands if lab == "inline/same/dot"]
+    rng.shuffle(dots)
+    for lab, pl, d in dots[:2]:
+        key = (pl["file"], pl.get("line"), pl.get("before"))
+        if key in used:
+            continue
+        used.add(key)
+        cls = rng.choice(["exact", "category", "all"])
+        text, toks, label = code_list(rng, d["code"], cls)
+        c = dict(pl)
+        c.update({"kind": lab, "text": text, "tokens": toks, "codes_form": label, "form_class": cls, "target": [d["file"], d["line"], d["code"]]})
+        out.append(c)
+        cover[((lab, category(d["code"])), cls)] = cover.get(((lab, category(d["code"])), cls), 0) + 1
     for _, _, st, cls in options:
         if len(out) >= k:
             break
